@@ -605,18 +605,205 @@ def rule_N4(ctx):
             ctx.ob("N4", rg, f"{name} has three groups (stem, separator run, L|R) anchored at the end", ok, pat, inst=name)
 
 
+
+# ------------------------------------------------------------------------ ancestor-chain builder (export_path)
+def _chain_climb(ctx, fn, rule):
+    """The function walks a linked chain with one cursor and collects one value per link into one list.  Returns a dict:
+    cursor, start (text), step (attribute climbed through), element (text over the cursor), order ('root-first' when the
+    returned list has the last visited link first), continue_when / stop_when (truth assignments of NONE = cursor is None,
+    EMPTY = cursor.path is empty under which an iteration runs / the loop ends), problems [text]."""
+    from .streams import _walk
+    from .sem import path_tests, bool_eval, emptiness_by
+    out = {"problems": []}
+    loops = [w for w in own_nodes(fn) if isinstance(w, (ast.While, ast.For))]
+    if len(loops) != 1 or not isinstance(loops[0], ast.While):
+        out["problems"].append(f"{len(loops)} loops (one `while` climbing the parents is expected)")
+        return out
+    w = loops[0]
+    steps = [a for a in ast.walk(w) if isinstance(a, ast.Assign) and len(a.targets) == 1 and isinstance(a.targets[0], ast.Name)
+             and isinstance(a.value, ast.Attribute) and isinstance(a.value.value, ast.Name) and a.value.value.id == a.targets[0].id]
+    if len(steps) != 1:
+        out["problems"].append(f"{len(steps)} cursor steps `c = c.<attr>` in the loop")
+        return out
+    c = steps[0].targets[0].id
+    out["cursor"], out["step"] = c, steps[0].value.attr
+    others = [a for a in ast.walk(w) if a is not steps[0] and any(isinstance(t, ast.Name) and t.id == c and isinstance(t.ctx, ast.Store) for t in ast.walk(a))
+              and isinstance(a, (ast.Assign, ast.AnnAssign, ast.AugAssign, ast.NamedExpr))]
+    if others:
+        out["problems"].append("the cursor is assigned more than once per iteration")
+    # start of the walk: the last top-level assignment to the cursor before the loop
+    start = None
+    for st in fn.body:
+        if st is w:
+            break
+        if isinstance(st, ast.Assign) and len(st.targets) == 1 and isinstance(st.targets[0], ast.Name) and st.targets[0].id == c:
+            start = st.value
+        elif isinstance(st, ast.AnnAssign) and isinstance(st.target, ast.Name) and st.target.id == c and st.value is not None:
+            start = st.value
+    out["start"] = norm(start) if start is not None else None
+    # the list that grows
+    grown = {}
+    for n in ast.walk(w):
+        for nm in {x.id for x in ast.walk(n) if isinstance(x, ast.Name)} if isinstance(n, (ast.Expr, ast.Assign, ast.AugAssign)) else ():
+            for g in grow_events(n, nm):
+                grown.setdefault(nm, []).append(g)
+    grown = {k: v for k, v in grown.items() if v}
+    if len(grown) != 1:
+        out["problems"].append(f"lists grown in the loop: {sorted(grown)}")
+        return out
+    L = next(iter(grown))
+    out["list"] = L
+    cfg = ctx.cfg(fn, rule)
+    lp = cfg.loop_of(w)
+    is_path = lambda x: norm(x) == f"{c}.path"  # noqa: E731
+
+    def atom_for(asg):
+        def atom(node):
+            t_ = node
+            if isinstance(t_, ast.Compare) and len(t_.ops) == 1 and isinstance(t_.left, ast.Name) and t_.left.id == c \
+                    and isinstance(t_.comparators[0], ast.Constant) and t_.comparators[0].value is None:
+                if isinstance(t_.ops[0], (ast.Is, ast.Eq)):
+                    return asg["NONE"]
+                if isinstance(t_.ops[0], (ast.IsNot, ast.NotEq)):
+                    return not asg["NONE"]
+            e_ = emptiness_by(t_, is_path)
+            if e_ is not None:
+                if asg["NONE"]:
+                    return "undef"  # None has no .path
+                return asg["EMPTY"] == e_
+            return None
+        return atom
+
+    runs, stops, kinds = set(), set(), {}
+    n_back = 0
+    for kind, path, edge in cfg.iteration_paths(lp):
+        pr = _walk(ctx, fn, cfg, path)
+        tests = path_tests(pr)
+        if kind == "back":
+            n_back += 1
+            gs = []
+            for s_ in pr.steps:
+                if s_.kind == "stmt" and s_.ast is not None:
+                    gs += list(grow_events(s_.ast, L))
+            n_step = sum(1 for s_ in pr.steps if s_.ast is steps[0])
+            if len(gs) != 1 or n_step != 1:
+                out["problems"].append(f"an iteration adds {len(gs)} entries and climbs {n_step} times")
+            else:
+                node, gk, val = gs[0]
+                if gk == "prepend" and isinstance(val, ast.List) and len(val.elts) == 1:
+                    kinds.setdefault("front", set()).add(norm(val.elts[0]))
+                elif gk == "insert" and norm(node.args[0]) == "0":
+                    kinds.setdefault("front", set()).add(norm(val))
+                elif gk == "append":
+                    kinds.setdefault("back", set()).add(norm(val))
+                elif gk in ("concat", "iadd", "extend") and isinstance(val, ast.List) and len(val.elts) == 1:
+                    kinds.setdefault("back", set()).add(norm(val.elts[0]))
+                else:
+                    out["problems"].append(f"list grown by `{norm(node)}`")
+                # the entry is taken before the cursor moves on
+                order_ = [s_.ast for s_ in pr.steps if s_.kind == "stmt" and s_.ast is not None and (s_.ast is steps[0] or any(True for _ in grow_events(s_.ast, L)))]
+                if order_ and order_[0] is steps[0]:
+                    out["problems"].append("the cursor moves before the entry is taken")
+        for vals in ((False, False), (False, True), (True, False), (True, True)):
+            asg = {"NONE": vals[0], "EMPTY": vals[1]}
+            feasible = True
+            for tst, taken in tests:
+                v = bool_eval(tst, atom_for(asg))
+                if v == "undef":
+                    out["problems"].append(f"`{norm(tst)}` reads .path of a cursor that may be None")
+                    feasible = False
+                    break
+                if v is None:
+                    out["problems"].append(f"test `{norm(tst)}` not understood")
+                    feasible = False
+                    break
+                if v != taken:
+                    feasible = False
+                    break
+            if feasible:
+                (runs if kind == "back" else stops).add(vals)
+    out["continue_when"], out["stop_when"] = runs, stops
+    if len(kinds) == 1 and len(next(iter(kinds.values()))) == 1:
+        side = next(iter(kinds))
+        out["element"] = next(iter(kinds[side]))
+        order = "root-first" if side == "front" else "leaf-first"
+    else:
+        out["problems"].append(f"entries added as {kinds}")
+        return out
+    # what happens to the list between the loop and the return
+    names = {L}
+    after = False
+    returned = None
+    for st in fn.body:
+        if st is w:
+            after = True
+            continue
+        if not after:
+            if any(isinstance(n, ast.Name) and n.id == L and isinstance(n.ctx, ast.Store) for n in ast.walk(st)) and not isinstance(st, ast.If):
+                v_ = st.value if isinstance(st, (ast.Assign, ast.AnnAssign)) else None
+                if not (isinstance(v_, ast.List) and not v_.elts) and not (isinstance(v_, ast.Call) and norm(v_) == "list()"):
+                    out["problems"].append(f"the list starts as `{norm(v_) if v_ is not None else norm(st)}`")
+            continue
+
+        def view(e):
+            """(alias name, flipped?) for expressions that are the list or its reversal"""
+            if isinstance(e, ast.Name) and e.id in names:
+                return False
+            if isinstance(e, ast.Subscript) and isinstance(e.value, ast.Name) and e.value.id in names and norm(e.slice) in ("::-1",):
+                return True
+            if isinstance(e, ast.Subscript) and isinstance(e.value, ast.Name) and e.value.id in names and norm(e.slice) in (":", "::1"):
+                return False
+            if isinstance(e, ast.Call) and isinstance(e.func, ast.Name) and e.func.id == "list" and len(e.args) == 1 and not e.keywords:
+                a_ = e.args[0]
+                if isinstance(a_, ast.Call) and isinstance(a_.func, ast.Name) and a_.func.id == "reversed" and len(a_.args) == 1 and isinstance(a_.args[0], ast.Name) \
+                        and a_.args[0].id in names:
+                    return True
+                return view(a_)
+            return None
+
+        if isinstance(st, ast.Expr) and isinstance(st.value, ast.Call) and isinstance(st.value.func, ast.Attribute) and st.value.func.attr == "reverse" \
+                and isinstance(st.value.func.value, ast.Name) and st.value.func.value.id in names and not st.value.args:
+            order = "leaf-first" if order == "root-first" else "root-first"
+        elif isinstance(st, (ast.Assign, ast.AnnAssign)) and view(st.value) is not None and isinstance(st.targets[0] if isinstance(st, ast.Assign) else st.target, ast.Name):
+            if view(st.value):
+                order = "leaf-first" if order == "root-first" else "root-first"
+            names = {(st.targets[0] if isinstance(st, ast.Assign) else st.target).id}
+        elif isinstance(st, ast.Return) and st.value is not None and view(st.value) is not None:
+            if view(st.value):
+                order = "leaf-first" if order == "root-first" else "root-first"
+            returned = True
+        elif any(isinstance(n, ast.Name) and n.id in names for n in ast.walk(st)):
+            out["problems"].append(f"`{norm(st)[:80]}` after the loop is not understood")
+    if not returned:
+        out["problems"].append("the collected list is not what is returned")
+    out["order"] = order
+    # any return before the loop may only be the empty answer for an element without a path
+    for r in [n for n in own_nodes(fn) if isinstance(n, ast.Return)]:
+        if r in fn.body and fn.body.index(r) > fn.body.index(w):
+            continue
+        v_ = r.value
+        if not (isinstance(v_, ast.List) and not v_.elts):
+            out["problems"].append(f"early `{norm(r)}`")
+    early_ok = True
+    for p in run_paths(ctx, fn, rule=rule, limit=2000):
+        if p.end == "return" and p.ret_node is not None and not (p.ret_node in fn.body and fn.body.index(p.ret_node) > fn.body.index(w)):
+            ts = path_tests(p)
+            emp = [emptiness_by(t_, lambda x: norm(x) == "self.path") for t_, tk in ts]
+            if not any(e_ is not None and (e_ == tk) for e_, (t_, tk) in zip(emp, ts)):
+                early_ok = False
+    if not early_ok:
+        out["problems"].append("an early return is taken for an element that has a path")
+    return out
+
 # ------------------------------------------------------------------------ N5
 def rule_N5(ctx):
     ep = ctx.fn(BASE, "Element.export_path", "N5")
     from .sem import grow_events, canon_expr, return_canons
-    wl = [w for w in own_nodes(ep) if isinstance(w, ast.While)]
-    grows = [(n, k, v) for w in wl for n, k, v in grow_events(w, "new_path")]
-    ok = len(grows) == 1 and ((grows[0][1] == "prepend" and norm(grows[0][2]) == "[current_node.export_name]")
-                              or (grows[0][1] == "insert" and norm(grows[0][2]) == "current_node.export_name" and norm(grows[0][0].args[0]) == "0"))
+    cc = _chain_climb(ctx, ep, "N5")
+    ok = not cc["problems"] and cc.get("element") == f"{cc.get('cursor')}.export_name" and cc.get("order") == "root-first" and cc.get("start") == "self"
     ctx.ob("N5", ep, "export_path is built from the export_name of the element and of each ancestor, root first", ok,
-           "" if ok else f"path components come from `{[norm(g[0]) for g in grows]}`", inst="export_path")
-    adv = [a for a in own_nodes(ep) if isinstance(a, ast.Assign) and norm(a) == "current_node = current_node.parent"]
-    ctx.ob("N5", ep, "export_path climbs through .parent", len(adv) == 1, "", inst="export_path-parent")
+           "" if ok else f"{cc['problems'] or {k: cc.get(k) for k in ('element', 'order', 'start')}}"[:300], inst="export_path")
+    ctx.ob("N5", ep, "export_path climbs through .parent", cc.get("step") in ("parent", "_parent"), f"{cc.get('step')}", inst="export_path-parent")
     _name_props(ctx, "N5")
     mo = ctx.fn(ST, "ExportManager.make_output_path", "N5")
     rc = return_canons(mo)
@@ -1227,9 +1414,11 @@ def rule_N9(ctx):
         ok = f"result = self._{prop}" in full(f)
         ctx.ob("N9", f, f"Element.{prop} returns the stored _{prop}", ok, "", inst=f"Element.{prop}")
     ep = ctx.fn("smpl_extract/base.py", "Element.export_path", "N9")
-    w = [n for n in own_nodes(ep) if isinstance(n, ast.While)]
-    ok = len(w) == 1 and norm(w[0].test) == "current_node is not None and len(current_node.path) > 0"
-    ctx.ob("N9", ep, "export_path stops at the root (the image has an empty path) and includes every level below it", ok, "", inst="export_path-stop")
+    cc = _chain_climb(ctx, ep, "N9")
+    # an iteration runs exactly for a cursor that exists and has a path; the walk ends at the first node that is None or has an empty path
+    ok = not cc["problems"] and cc.get("continue_when") == {(False, False)} and cc.get("stop_when") == {(False, True), (True, False), (True, True)}
+    ctx.ob("N9", ep, "export_path stops at the root (the image has an empty path) and includes every level below it", ok,
+           "" if ok else f"{cc['problems'] or {k: sorted(cc.get(k, ())) for k in ('continue_when', 'stop_when')}}"[:300], inst="export_path-stop")
     for path, cls in (("smpl_extract/structural.py", "Image"), ("smpl_extract/cdda/image.py", "CompactDiskAudioImage")):
         v = ctx.prog.class_assigned(path, cls, "_path", "N9")
         ctx.ob("N9", v, f"{cls} is the root: its path is empty", norm(v) == "[]", norm(v), inst=f"{cls}._path", file=path, qualname=cls)
